@@ -61,7 +61,7 @@ class DictV(object):
 
 
 class RecV(object):
-    """dict with constant string keys / record"""
+    """dict with constant string keys / record: name -> (present Bool term, value)"""
 
     __slots__ = ("fields",)
 
@@ -144,9 +144,45 @@ def parse_type(s):
     if s.startswith("dict[") and s.endswith("]"):
         k, v = split_top(s[5:-1])
         return Type("dict", (parse_type(k), parse_type(v)))
+    if s.startswith("rec{") and s.endswith("}"):
+        fields = []
+        for part in split_all(s[4:-1].replace("{", "[").replace("}", "]")):
+            k, v = part.split(":", 1)
+            v = v.replace("[", "{", 0)
+            fields.append((k.strip(), v.strip()))
+        # restore braces of nested rec types
+        out = []
+        for k, v in fields:
+            opt = k.endswith("?")
+            out.append((k.rstrip("?"), opt, parse_type(_unbracket(v))))
+        return Type("rec", out)
     if s.startswith("tuple[") and s.endswith("]"):
         return Type("tuple", [parse_type(x) for x in split_all(s[6:-1])])
     raise ValueError("bad type " + s)
+
+
+def _unbracket(v):
+    # nested rec types were bracketed for splitting: rec[...] -> rec{...}
+    out = []
+    i = 0
+    while i < len(v):
+        if v.startswith("rec[", i):
+            depth = 0
+            j = i + 3
+            while j < len(v):
+                if v[j] == "[":
+                    depth += 1
+                elif v[j] == "]":
+                    depth -= 1
+                    if depth == 0:
+                        break
+                j += 1
+            out.append("rec{" + _unbracket(v[i + 4 : j]) + "}")
+            i = j + 1
+        else:
+            out.append(v[i])
+            i += 1
+    return "".join(out)
 
 
 def split_top(s):
